@@ -485,6 +485,52 @@ def run_b2single(ctx, pt):
     ctx.eq('C11/blake2%s/module-singleton' % v, ctx.attempt(lambda: o(m)), ('ok', h2(v)(m).digest()))
 
 
+# ---- what was used first in the process -------------------------------------------------------------------------
+
+def _foreign():
+    from crysp.sha import SHA1, SHA2, SHA3
+    from crysp.md import MD5
+    from crysp.blake import Blake, Blake2
+    from crysp.hmac import HMAC
+    from crysp.skein import Skein
+    import crysp.blake as LB
+    f = {'SHA2-%d' % n: (lambda n: lambda: SHA2(n)(b'x'))(n) for n in (224, 256, 384, 512)}
+    f.update({'SHA2-512/224': lambda: SHA2(512, 224)(b'x'), 'SHA2-512/256': lambda: SHA2(512, 256)(b'x'), 'SHA1': lambda: SHA1(1)(b'x'), 'MD5': lambda: MD5()(b'x'),
+              'SHA3-256': lambda: SHA3(256)(b'x'), 'Skein-512': lambda: Skein(512, 512)(b'x'), 'HMAC-SHA2-512/256': lambda: HMAC(SHA2(512, 256), b'k')(b'x')})
+    f.update({'Blake-%d' % n: (lambda n: lambda: Blake(n)(b'x', 5))(n) for n in SIZES})
+    f.update({'Blake2(%d)' % n: (lambda n: lambda: Blake2(n)(b'x'))(n) for n in SIZES})
+    f.update({'Blake2(512) with parameters': lambda: Blake2(512)(b'x', outlen=20, salt=b's' * 16, fanout=2, depth=2), 'blake2s module instance': lambda: LB.blake2s(b'x'),
+              'constructed only: SHA2(512,256), Blake2(384), Blake(224)': lambda: (SHA2(512, 256), Blake2(384), Blake(224)) and None})
+    return f
+
+
+def _targets():
+    from crysp.blake import Blake, Blake2
+    import crysp.blake as LB
+    m = expander(150, 3)
+    t = {'blake%d' % n: ((lambda n: lambda: Blake(n)(m))(n), RB.blake(n, m)) for n in SIZES}
+    t['blake256 salted'] = (lambda: Blake(256)(m, 0x0102030405060708090a0b0c0d0e0f10), RB.blake(256, m, salt=0x0102030405060708090a0b0c0d0e0f10))
+    t['blake2b'] = (lambda: Blake2(512)(m), hashlib.blake2b(m).digest())
+    t['blake2s'] = (lambda: Blake2(256)(m), hashlib.blake2s(m).digest())
+    t['blake2b module instance'] = (lambda: LB.blake2b(m), hashlib.blake2b(m).digest())
+    t['blake2s module instance'] = (lambda: LB.blake2s(m), hashlib.blake2s(m).digest())
+    t['blake2b outlen=48'] = (lambda: Blake2(512)(m, outlen=48), hashlib.blake2b(m, digest_size=48).digest())
+    t['blake2s outlen=28'] = (lambda: Blake2(256)(m, outlen=28), hashlib.blake2s(m, digest_size=28).digest())
+    return t
+
+
+def pts_firstuse(tier):
+    return [(a, b) for a in sorted(_foreign()) for b in sorted(_targets())]
+
+
+def run_firstuse(ctx, pt):
+    """a fresh process in which some other hash configuration (in or outside this property) is used first"""
+    a, b = pt
+    ctx.attempt(_foreign()[a])
+    f, exp = _targets()[b]
+    ctx.eq('C11/%s/after-another-configuration-was-used-first-in-the-process' % b.split(' ')[0], ctx.attempt(f), ('ok', exp))
+
+
 def selftest():
     try:
         return {'blake_reference_submission_vectors': RB.selftest()}
@@ -512,6 +558,8 @@ def subchecks():
         Sub('blake2-lengths', pts_b2len, run_b2len, engine='P', bound='BLAKE2s/2b x every byte length 0..4 blocks+1 and 5, 8, 16, 17, 33 (thorough 64, 65, 257) blocks -1/0/+1 byte x 2 patterns vs hashlib'),
         Sub('blake2-parameters', pts_b2par, run_b2par, engine='P',
             bound='every outlen 1..32/64 on 3 messages; salt/personalization in {empty, full}^2 (+outlen 20); fanout{0,1,2,255} x depth{1,2,255} x leaf{0,1,2^32-1} x node offset{0,1,max} x node depth{0,1,255} x inner{0,1,max}: full product (quick: at most 2 non-default) on a 1-block and a 3-block message vs hashlib'),
+        Sub('first-use-order', pts_firstuse, run_firstuse, engine='H', chunk=1,
+            bound='every pair (configuration used first in a fresh process, BLAKE / BLAKE2 call): 22 first uses (every SHA-2 size incl. 512/t, SHA-1, MD5, SHA-3, Skein, HMAC, every BLAKE size with a salt, Blake2 of every accepted size, parameterised BLAKE2, objects constructed but never called) x 11 judged calls vs reference'),
         Sub('blake2-singletons', pts_b2single, run_b2single, engine='P', bound='module-level blake2b/blake2s on 7 lengths'),
     ]
 
